@@ -132,6 +132,9 @@ def compound_leaves():
             T.call("f", ns=("ns",)), T.call("f", a, ns=("ns",)), T.call("f", a, b, T.Int(3), ns=("ns",)),
             T.call("f", T.named("p", one), ns=("ns",)), T.call("f", T.named("p", one), T.named("q", T.Str("s")), ns=("ns",)),
             T.call("f", T.named("p", T.binop("Add", a, one)), ns=("ns",)),
+            # a parameter NAME is an identifier too and may be qualified (wave 13)
+            T.call("f", T.named("p", one, ns=("ns",)), ns=("ns",)), T.call("f", T.named("p", one, ns=("n1", "n2")), T.named("q", a, ns=("ns",))),
+            T.call("substring", T.named("fullstr", a, ns=("odata",)), T.named("index", one, ns=("odata",))),
             T.call("length", T.lst(one, T.Int(2))), T.call("length", T.lst(one)), T.call("hassubset", T.lst(one, T.Int(2)), T.lst(one)),
             T.call("distance", a, ("Geography", "POINT(1 2)"), ns=("geo",)),
             T.call("contains", T.call("tolower", a), T.Str("x")), T.call("f", T.binop("Or", a, b), T.unop("Not", a), ns=("ns",))]
